@@ -33,7 +33,7 @@ import (
 type Step struct {
 	K     string   `json:"k"`            // C2S S2C SetH SendH SetT CloseSend RecvEOF CHeader Ret Cancel CtxEnd
 	// CtxEnd: as Cancel, but the handler then goes on with the steps that follow (SetH SendH SetT, S2C = a
-	// SendMsg, RecvEOF = a RecvMsg; what these return to the handler is not recorded) up to its Ret
+	// SendMsg, RecvEOF = a RecvMsg; what these return to the handler is not recorded, except for RecvMsg) up to its Ret
 	M     int      `json:"m,omitempty"`  // message payload (C2S, S2C), response payload (Ret ok of unary shapes)
 	MD    [][2]int `json:"md,omitempty"` // metadata pairs (key index, value)
 	Ok    bool     `json:"ok,omitempty"` // Ret: handler returns nil
@@ -748,7 +748,9 @@ func (d *driver) startS(c srvCmd) bool {
 func (d *driver) waitS() (Obs, bool) {
 	select {
 	case o := <-d.ctl.res:
-		if o.K != "sett" && !d.gone {
+		// after the client's context has ended only the result of a RecvMsg is recorded (it is the same on
+		// both transports: nothing can be waiting, the end of the context is all there is to report)
+		if o.K != "sett" && (!d.gone || o.K == "recverr" || o.K == "eof" || o.K == "got") {
 			d.tr.Server = append(d.tr.Server, o)
 		}
 		return o, true
